@@ -78,6 +78,9 @@ def check_url(u, o, fails, tags):
             if val(st) != e:
                 fails.append((PROP + ".normalized-stems", {"normalize_url": n[1], "stems": e}, val(st)))
     if f[0] == "ok":
+        fs = core.guarded(m.fingerprint_url, u, unsplit=False, strip_suffix=ss)
+        f_passthrough = fs[0] == "ok" and isinstance(fs[1], str)  # handed back unparsed, like normalize_url does
+    if f[0] == "ok" and not f_passthrough:
         # fingerprint_url always infers redirections: compare with the helper's default
         gf = core.guarded(m.get_fingerprinted_hostname, u, strip_suffix=ss)
         exp = host_of(f[1])
@@ -89,7 +92,12 @@ def check_url(u, o, fails, tags):
             e = [x for x in ref[1] if not x.startswith("s:")]
             if val(st) != e:
                 fails.append((PROP + ".fingerprinted-stems", {"fingerprint_url": f[1], "stems": e}, val(st)))
-    if c[0] == "ok":
+    try:
+        hostless = not std_urlsplit(m.ensure_protocol(u)).hostname
+    except ValueError:
+        hostless = True
+    # a url in which the standard parser sees no host at all (scheme-less 'word//...', section 10 item 3) has no stems to speak of
+    if c[0] == "ok" and not hostless:
         st = core.guarded(lru.canonicalized_lru_stems, u, suffix_aware=sa)
         ref = core.guarded(lru.lru_stems, c[1], suffix_aware=sa)
         if ref[0] == "ok" and val(st) != ref[1]:
